@@ -88,7 +88,7 @@ Fixpoint band_results (lib : list amp) (redfa : list string) (prev : neigh) (max
   end.
 
 (* smallest margin met by the preselection filters *)
-Fixpoint presel_crit (lib : list amp) (groups : list mgroup) (ext : Q) (sel : list string)
+Fixpoint presel_crit (lib : list amp) (groups : list mgroup) (ext : Q) (restr0 sel : list string)
                      (bts : list (Q * Q * Q * Q)) : Q :=
   match bts with
   | [] => 1
@@ -96,8 +96,9 @@ Fixpoint presel_crit (lib : list amp) (groups : list mgroup) (ext : Q) (sel : li
       let cands := band_cands lib groups sel bmin bmax in
       Qmin (select_crit true gain pt ext cands)
            (match acc_gain true gain cands with
-            | Ok acc => presel_crit lib groups ext
-                          (dedup (flat_map (groups_of groups) (map a_name (acc_power ext gain pt acc)))) rest
+            | Ok acc => presel_crit lib groups ext restr0
+                          (filter (fun m => smem m (flat_map (groups_of groups) (map a_name (acc_power ext gain pt acc))))
+                                  restr0) rest
             | Err _ => 1
             end)
   end.
@@ -107,7 +108,7 @@ Definition run_multi (lib : list amp) (groups : list mgroup) (maxl ext : Q)
   let '(nd, prev, next, btn) := c in
   let bts := map fst btn in
   let mr := multi_restrictions nd prev next (map (fun b => (fst (fst (fst b)), snd (fst (fst b)))) bts) lib groups in
-  let pc := if negb (String.eqb (n_variety nd) "") then 1 else presel_crit lib groups ext mr bts in
+  let pc := if negb (String.eqb (n_variety nd) "") then 1 else presel_crit lib groups ext mr mr bts in
   append (join "," mr)
     (append "#"
       (match multi_redfa nd prev next lib groups ext bts with
